@@ -116,6 +116,22 @@ def is_fmt_span(sp):
 # CFG
 # --------------------------------------------------------------------------
 
+def whole_defs(fn, l):
+    """Sites that assign the whole of local l, copies of one original statement (variant threading duplicates
+    blocks) counted once."""
+    du = defuse(fn)
+    out, seen = [], set()
+    for s_, whole in du.defs.get(l, []):
+        if not whole:
+            continue
+        k = (fn.blocks[s_.bb].get("src_block", s_.bb), s_.is_term, getattr(s_, "idx", None))
+        if k in seen:
+            continue
+        seen.add(k)
+        out.append(s_)
+    return out
+
+
 class CFG:
     def __init__(self, fn):
         self.fn = fn
